@@ -208,6 +208,11 @@ func (c *ShipConnection) approveHandshake() {
 
 // end the handshake process because of an error
 func (c *ShipConnection) endHandshakeWithError(err error) {
+	// a connection that was already closed on purpose has nothing more to report
+	if c.getShutdown() {
+		return
+	}
+
 	c.stopHandshakeTimer()
 
 	c.setState(model.SmeStateError, err)
